@@ -27,6 +27,10 @@ def successes (r : SStruct ν) (f : SField ν) (items : List NestedMeta) : List 
     | .item m => if selects r f it then (match f.conv m with | .ok v => some v | _ => none) else none
     | .lit _ => none)
 
+/-- how many of `items` address field `f` (accepted or not) -/
+def occurrences (r : SStruct ν) (f : SField ν) (items : List NestedMeta) : Nat :=
+  (items.filter (selects r f)).length
+
 /-- the mistakes contributed by one item, given the items before it -/
 def itemMistakes (r : SStruct ν) (earlier : List NestedMeta) (it : NestedMeta) : List Err :=
   match it with
@@ -37,7 +41,7 @@ def itemMistakes (r : SStruct ν) (earlier : List NestedMeta) (it : NestedMeta) 
       | some f =>
           if f.multiple then
             (match f.conv m with
-             | .err e => [(e.withSpan m.span).at (f.name ++ "[" ++ toString (successes r f earlier).length ++ "]")]
+             | .err e => [(e.withSpan m.span).at (f.name ++ "[" ++ toString (occurrences r f earlier) ++ "]")]
              | _ => [])
           else if earlier.any (selects r f) then [(Err.new (.duplicateField f.name)).withSpan m.span]
           else (match f.conv m with
